@@ -40,6 +40,8 @@ CLAIMS = {
             "VSA (value sets/intervals) + PAIRF/CNT/FIN rules over clang AST/CFG", "3 C18"),
     "C19": ("failure discipline and tree confinement on File.cpp/Directory.cpp: created files are unlinked on every failing path (1 known finding for File::copy), Directory::create returns true only on mkdir success / '.'-'..' / verified existence and fails when the parent cannot be made, File::open keeps no handle on failure, recursive unlink calls nothing that follows links and recurses only for DT_DIR entries with the stream closed on every exit; the path algebra (simplifyPath, recomposition, getRelativePath), byte fidelity of file I/O and the file system's behaviour are NOT decided",
             "MPT/DOM/WHO rules over clang AST/CFG", "3 C19"),
+    "C20": ("parser-cursor abstract interpretation of Process::Arguments (option cursor stays inside the argument strings; 1 known finding for short-option clusters) and of the command-line splitter (bounds + progress), the option/value decision table of the matched-option arms evaluated over all flag/'='/rest/next-argv combinations against getopt_long, option table walk bounds, pipe-end discipline after vfork (parent closes the child's ends, child dup2 before close before exec, null-terminated argv), reap-then-close in join/kill; what the child receives, exit codes and stream contents are NOT decided",
+            "CUR abstract interpretation + FIN decision table + MPT/ORD rules over clang AST/CFG", "3 C20"),
     "C08": ("path and pairing rules over every Buffer member: terminator after every end update on owning paths, ownership<->capacity pairing, allocation X+1 with _capacity X, release/re-seat pairing, complete swap, rule of three, and linear-inequality entailment (own Fourier-Motzkin over dominating guards + class invariant) that every copy/move target and terminator store lies inside the allocation; content equality with a reference byte queue is NOT decided",
             "MPT/PAIRF path rules + linear-inequality abstract domain over clang AST/CFG", "3 C08"),
 }
